@@ -159,7 +159,7 @@ def run_one(tape: Any, cfg: Dict[str, Any], forbid: FrozenSet[str] = frozenset()
                                             [b'Basic ', b'basic '][tape.draw(2, 'fsc')] +
                                             (good if fk == 1 else base64.b64encode(b'other:creds')))]
                 ms = METHODS
-                if i == nfollow - 1 and extra and g.feature('upgrade_followup', 0.2):
+                if extra and g.feature('upgrade_followup', 0.2) and (i == nfollow - 1 or g.note('request_after_declined_upgrade')):
                     # a protocol-switch request (declined by the origin) is still a request: its credentials stay here
                     extra = [(b'Connection', b'Upgrade'), (b'Upgrade', b'websocket')] + extra
                     ms = [b'GET']
